@@ -39,6 +39,10 @@ type fctx struct {
 	// body (0: the top-level statement list).
 	depth   int
 	inDefer bool
+	// taint: local variables holding a value obtained under a lock that is
+	// (possibly) no longer held; ctaCands: conditions on such values so far.
+	taint    map[types.Object][]ctaSrc
+	ctaCands []ctaCand
 	// nonBlocking: walking the communication of a select with a default clause.
 	nonBlocking bool
 	// drained maps a channel to the acquisitions (seq) under which it was
@@ -64,7 +68,7 @@ func (a *analysis) newCtx(fi *funcInfo, name string, pkg *packages.Package) *fct
 		a: a, fi: fi, pkg: pkg, info: pkg.TypesInfo, name: name, may: map[int]bool{},
 		aliases: map[types.Object]*pathRef{}, fresh: map[types.Object]bool{}, multi: map[types.Object]int{},
 		lits: map[types.Object]*ast.FuncLit{}, dbOwner: map[types.Object]string{}, txClass: map[types.Object]int{},
-		boltRows: map[int]*acqSite{}, drained: map[types.Object][]int{},
+		boltRows: map[int]*acqSite{}, drained: map[types.Object][]int{}, taint: map[types.Object][]ctaSrc{},
 	}
 }
 
@@ -335,6 +339,7 @@ func (c *fctx) stmt(s ast.Stmt) (terminated bool) {
 		c.stmt(s.Init)
 		if s.Tag != nil {
 			c.expr(s.Tag)
+			c.ctaCond(s.Tag)
 		}
 
 		return c.clauses(s.Body.List, true)
@@ -422,6 +427,7 @@ func (c *fctx) ifStmt(s *ast.IfStmt) (terminated bool) {
 	tryLock := c.findTryLock(s)
 	if tryLock == nil {
 		c.expr(s.Cond)
+		c.ctaCond(s.Cond)
 	}
 	entry := c.snap()
 	var exits []snapshot
@@ -535,6 +541,15 @@ func (c *fctx) assign(s *ast.AssignStmt) {
 		if id, ok := l.(*ast.Ident); ok {
 			if len(s.Lhs) == len(s.Rhs) {
 				c.noteDefine(id, s.Rhs[i])
+			} else if len(s.Rhs) == 1 {
+				// x, err := f(): x may describe guarded state
+				if obj := c.objOf(id); obj != nil && id.Name != "_" && !isErrorType(obj.Type()) {
+					if srcs := c.ctaSources(s.Rhs[0]); len(srcs) > 0 {
+						c.taint[obj] = srcs
+					} else {
+						delete(c.taint, obj)
+					}
+				}
 			}
 
 			continue
@@ -551,6 +566,11 @@ func (c *fctx) noteDefine(id *ast.Ident, rhs ast.Expr) {
 		return
 	}
 	rhs = ast.Unparen(rhs)
+	if srcs := c.ctaSources(rhs); len(srcs) > 0 {
+		c.taint[obj] = srcs
+	} else {
+		delete(c.taint, obj)
+	}
 	if isBoltType(obj.Type(), "DB") {
 		if o := c.boltOwner(rhs); o != "" {
 			c.dbOwner[obj] = o
@@ -803,6 +823,7 @@ func (c *fctx) lockOp(call *ast.CallExpr, try bool) {
 			return
 		}
 		if !try {
+			c.ctaAct(lk.class, nil, call.Pos())
 			c.markNonLeaf()
 			for h := range c.may {
 				c.a.edgeInst(h, lk.class, c.declName(), c.declName(), c.a.pos(call.Pos()))
@@ -1563,6 +1584,9 @@ func (c *fctx) callTargets(call *ast.CallExpr, isGo bool, _ []*ast.FuncLit, top 
 		}
 	}
 	for _, t := range targets {
+		if !isGo {
+			c.ctaAct(-1, t, call.Pos())
+		}
 		if c.fi != nil && !isGo {
 			if !c.detached {
 				if c.a.callG[c.fi.obj] == nil {
@@ -2106,4 +2130,141 @@ func (c *fctx) drainLoop(s *ast.ForStmt) types.Object {
 	}
 
 	return ch
+}
+
+// ---------------------------------------------------------------- check-then-act
+
+type ctaCand struct {
+	src  ctaSrc
+	pos  string
+	call *ast.CallExpr // the call the value came from, if it is in the condition itself
+}
+
+func (c *fctx) heldClasses() map[int]bool {
+	h := map[int]bool{}
+	for k := range c.may {
+		h[k] = true
+	}
+	for _, l := range c.must {
+		h[l.class] = true
+	}
+
+	return h
+}
+
+// ctaSources lists where the value of an expression may come from: calls that
+// return a value (they may take a lock themselves), and guarded fields read
+// under a hold taken in this function that is not kept to its end.
+func (c *fctx) ctaSources(e ast.Expr) (srcs []ctaSrc) {
+	if e == nil || c.a.collecting {
+		return nil
+	}
+	ast.Inspect(e, func(n ast.Node) bool {
+		switch n := n.(type) {
+		case *ast.FuncLit:
+			return false
+		case *ast.Ident:
+			if obj := c.objOf(n); obj != nil && !isErrorType(obj.Type()) {
+				srcs = append(srcs, c.taint[obj]...)
+			}
+		case *ast.CallExpr:
+			if c.lockMethod(n) != "" {
+				return true
+			}
+			var targets []*types.Func
+			if f := c.staticCallee(n); f != nil {
+				targets = append(targets, f.Origin())
+			} else if sel, ok := ast.Unparen(n.Fun).(*ast.SelectorExpr); ok {
+				if s := c.info.Selections[sel]; s != nil && s.Kind() == types.MethodVal {
+					if iface, ok := s.Recv().Underlying().(*types.Interface); ok {
+						targets = c.a.implementations(iface, sel.Sel.Name)
+					}
+				}
+			}
+			// only values that can describe guarded state: not errors
+			if tv, ok := c.info.Types[n]; ok && tv.Type != nil {
+				if isErrorType(tv.Type) {
+					return true
+				}
+				if tup, isTuple := tv.Type.(*types.Tuple); isTuple {
+					onlyErr := true
+					for i := 0; i < tup.Len(); i++ {
+						onlyErr = onlyErr && isErrorType(tup.At(i).Type())
+					}
+					if onlyErr {
+						return true
+					}
+				}
+			}
+			for _, t := range targets {
+				if sig, ok := t.Type().(*types.Signature); ok && sig.Results().Len() > 0 {
+					srcs = append(srcs, ctaSrc{callee: t, held: c.heldClasses(), name: funcName(t), pos: c.a.pos(n.Pos())})
+				}
+			}
+		case *ast.SelectorExpr:
+			pr := c.resolve(n)
+			if pr == nil || len(pr.segs) == 0 {
+				return true
+			}
+			root, base, path := c.a.rootOf(pr)
+			if root == "" || c.a.rootCfg[root] == nil {
+				return true
+			}
+			prefix, guard, _, ok := c.a.classify(root, path)
+			if !ok || guard == "" {
+				return true
+			}
+			for _, l := range c.must {
+				if !l.outer && !l.deferred && l.root == root && l.base == base && l.path == guard {
+					srcs = append(srcs, ctaSrc{class: l.class, seq: l.seq, held: c.heldClasses(), name: "read of " + root + ":" + prefix, pos: c.a.pos(n.Pos())})
+				}
+			}
+
+			return false
+		}
+
+		return true
+	})
+
+	return srcs
+}
+
+func isErrorType(t types.Type) bool {
+	return t != nil && types.Identical(t, types.Universe.Lookup("error").Type())
+}
+
+// ctaCond notes that the values an `if`/`switch` tests come from the given sources.
+func (c *fctx) ctaCond(e ast.Expr) {
+	if c.initFn {
+		return
+	}
+	for _, src := range c.ctaSources(e) {
+		c.ctaCands = append(c.ctaCands, ctaCand{src: src, pos: c.a.pos(e.Pos())})
+	}
+}
+
+// ctaAct pairs every earlier condition with an acquisition made now (directly,
+// class >= 0, or possibly by a callee); the pairs are resolved when the locks
+// the callees take are known.
+func (c *fctx) ctaAct(class int, callee *types.Func, p token.Pos) {
+	if c.a.collecting || len(c.ctaCands) == 0 {
+		return
+	}
+	pos := c.a.pos(p)
+	for _, cand := range c.ctaCands {
+		if cand.src.pos == pos {
+			continue // the call in the condition itself
+		}
+		if cand.src.callee == nil {
+			// a field read under a hold of this function: only if that hold is over
+			still := false
+			for _, l := range c.must {
+				still = still || l.seq == cand.src.seq
+			}
+			if still {
+				continue
+			}
+		}
+		c.a.ctaPairs = append(c.a.ctaPairs, ctaPair{fn: c.declName(), src: cand.src, condPos: cand.pos, actClass: class, actCallee: callee, actPos: pos})
+	}
 }
